@@ -107,19 +107,31 @@ pub struct ProdLog {
     pub done:     AtomicBool,
     /// (id, call stamp, return stamp, accepted?)
     pub calls:    Mutex<Vec<(u64, u64, u64, bool)>>,
+    /// call stamp of the send that is in progress (0: none) -- a send that panics never returns
+    pub open_call: AtomicU64,
+    /// the event id that send is about
+    pub open_id: AtomicU64,
+    /// stamp taken while the producer thread unwinds (0: it did not panic)
+    pub panicked_at: AtomicU64,
 }
+struct PanicStamp(Arc<ProdLog>);
+impl Drop for PanicStamp { fn drop(&mut self) { if std::thread::panicking() { self.0.panicked_at.store(stamp(), SeqCst) } } }
 
 /// A producer: sends `ids` in order through `entry`; a rejected send is retried up to `retries` times, then given up
 pub fn producer_body(ch: Arc<dyn Chan>, entry: Entry, ids: Vec<u64>, retries: u32, log: Arc<ProdLog>) -> Body {
     Box::new(move || {
         log.tid.store(sched::my_tid() as u32, SeqCst);
+        let _ps = PanicStamp(log.clone());
         for id in ids {
             let mut attempt = 0;
             loop {
                 let t0 = stamp();
+                log.open_id.store(id, SeqCst);
+                log.open_call.store(t0, SeqCst);
                 RESUMED_AT.with(|r| r.set(0));
                 let r = send_via(&*ch, entry, id);
                 let t1 = stamp();
+                log.open_call.store(0, SeqCst);
                 let resumed = RESUMED_AT.with(|r| r.get());
                 log.calls.lock().unwrap().push((id, if resumed > 0 { resumed } else { t0 }, t1, r == SendRes::Ok));
                 sched::op_done();
